@@ -9,23 +9,48 @@ from ..models import lexer as LX
 
 
 TOKEN_FORMS = {
+    # in canonical local names (v0, v1, ... in order of first assignment), so that renaming a
+    # local does not change the forms
     "parse_identifier": {
-        "tokens": {"Token(keywords[val], pos)", "Token('IDENTIFIER', pos, val)"},
-        "text": {"val = self.pop()", "val += self.pop()"},
-        "guards": {"val in keywords"},
+        "tokens": {"Token(keywords[v2], v1)", "Token('IDENTIFIER', v1, v2)"},
+        "text": {"v2 = self.pop()", "v2 += self.pop()"},
+        "guards": {"v2 in keywords"},
     },
 }
+
+
+def canonical_locals(fnode):
+    """copy of the function with its local variables renamed v0, v1, ... by first assignment"""
+    import ast
+    import copy
+    order = []
+    for x in ast.walk(fnode):
+        if isinstance(x, ast.Name) and isinstance(x.ctx, ast.Store) and x.id not in order:
+            order.append((x.lineno, x.col_offset, x.id))
+    names = []
+    for _l, _c, n in sorted(order):
+        if n not in names:
+            names.append(n)
+    ren = {n: f"v{k}" for k, n in enumerate(names)}
+    node = copy.deepcopy(fnode)
+    for x in ast.walk(node):
+        if isinstance(x, ast.Name) and x.id in ren:
+            x.id = ren[x.id]
+    return node
 
 
 def valueless_token_frames(chk):
     import ast
     f = chk.repo.find_function("norminette/lexer/lexer.py:Lexer.parse_identifier")
+    node = canonical_locals(f.node)
     spec = TOKEN_FORMS["parse_identifier"]
     toks, text, guards, calls = set(), set(), set(), set()
-    for x in ast.walk(f.node):
+    textvars = {t.id for x in ast.walk(node) if isinstance(x, (ast.Assign, ast.AugAssign)) and "self.pop()" in ast.unparse(x.value)
+                for t in ast.walk(x) if isinstance(t, ast.Name) and isinstance(t.ctx, ast.Store)}
+    for x in ast.walk(node):
         if isinstance(x, ast.Call) and isinstance(x.func, ast.Name) and x.func.id == "Token":
             toks.add(ast.unparse(x))
-        if isinstance(x, (ast.Assign, ast.AugAssign)) and "val" in {t.id for t in ast.walk(x) if isinstance(t, ast.Name) and isinstance(t.ctx, ast.Store)}:
+        if isinstance(x, (ast.Assign, ast.AugAssign)) and textvars & {t.id for t in ast.walk(x) if isinstance(t, ast.Name) and isinstance(t.ctx, ast.Store)}:
             text.add(ast.unparse(x))
         if isinstance(x, ast.If):
             for r in ast.walk(x):
@@ -35,10 +60,11 @@ def valueless_token_frames(chk):
             calls.add(x.func.id)
     ok = toks == spec["tokens"] and text == spec["text"] and guards == spec["guards"] and not calls
     chk.frame("frame.parse_identifier.keyword_token_only_for_the_exact_table_entry", ok,
-              {"tokens": sorted(toks), "consumed_text": sorted(text), "guards": sorted(guards), "other_calls": sorted(calls)},
-              what="parse_identifier no longer builds its tokens as Token(keywords[val], pos) under `val in keywords` / "
-                   f"Token('IDENTIFIER', pos, val) with val the popped characters: {sorted(toks)} {sorted(text)} {sorted(guards)} "
-                   f"{sorted(calls)} -- the text of a keyword token may differ from what was consumed")
+              {"tokens": sorted(toks), "consumed_text": sorted(text), "guards": sorted(guards), "other_calls": sorted(calls),
+               "note": "local variables are compared under canonical names (v0, v1, ... by first assignment)"},
+              what="parse_identifier no longer builds its tokens as Token(keywords[text], pos) under `text in keywords` / "
+                   f"Token('IDENTIFIER', pos, text) with text the popped characters: {sorted(toks)} {sorted(text)} "
+                   f"{sorted(guards)} {sorted(calls)} -- the text of a keyword token may differ from what was consumed")
 
 
 def run(tier, seed, replay):
